@@ -111,6 +111,12 @@ class C02Spec(ModelSpec):
                 ops.append(("store", pid, "A" if pid != "r" else "B", val))
             ops.append(("delete", pid))
         ops.append(("store_nopid", "B"))
+        # rejected re-stores with other content, then digests asked through the same instance
+        ops += [("store", "p", "B", "add:sha224"), ("store", "r", "A", None), ("store", "q", "B", "badck:sha3_256"),
+                ("tag", "q", "B")]
+        for pid in self.pids:
+            for algo in ("sha256", "MD5", "SHA3-256", "sha224"):
+                ops.append(("hexdigest", pid, algo))
         self.ops = ops
 
 
@@ -130,7 +136,7 @@ def main(tier):
             rep.violation(sig, det)
     rep.coverage.update({"combination_cases": n, "distinct_key_sets": len(distinct), "get_hex_digest_cases": nh,
                          "spellings": {a: spellings(a) for a in ALL_ALGOS}})
-    run_spec(rep, C02Spec(tier), "one-instance-histories", max_depth=6 if tier == "quick" else 10,
+    run_spec(rep, C02Spec(tier), "one-instance-histories", max_depth=8 if tier == "quick" else 14,
              time_cap=300 if tier == "quick" else 3000)
     rep.assumptions += ["engine S carries the instance's plain-data attributes from call to call, so a call that "
                         "changes instance state is seen by every later call of the history",
